@@ -201,10 +201,8 @@ fn planes<T: yuvxyb::Pixel>(y: &Yuv<T>) -> Vec<Vec<T>> {
     y.data().iter().map(|p| p.data_origin().to_vec()).collect()
 }
 
-fn threads(n: usize) {
-    // Two differently configured shared sources, used alternately by the
-    // threads, so that any memo/cache keyed on configuration is thrashed
-    // (a warm, read-only cache would hide a racy one).
+fn threads(n: usize, seed: u64, len: usize) {
+    // Shared immutable sources converted from the shared borrow by all threads…
     let ss = (1, 1);
     let specs = [cfg(8, ss), YuvConfig { full_range: true, matrix_coefficients: MatrixCoefficients::ST170M, ..cfg(8, (0, 0)) }];
     let yuvs = [
@@ -224,39 +222,325 @@ fn threads(n: usize) {
         let hsl = bits(Hsl::from(LinearRgb::try_from(yuv).unwrap()).data());
         (xb, back, enc, hsl)
     };
-    // sequential reference
+    // …plus, per thread, a seeded sequence of self-contained ops over every
+    // metadata value, so that threads are concurrently inside differently
+    // configured conversions (a cache keyed on configuration is thrashed, not
+    // just read). Sequential reference first, on this thread.
     let reference = [job(&yuvs[0], &rgb, specs[0]), job(&yuvs[1], &rgb, specs[1])];
-
-    let hs: Vec<_> = (0..n)
+    let seqs: Vec<Vec<usize>> = (0..n)
         .map(|i| {
+            let mut x = (seed.wrapping_mul(1000) + i as u64 + 1).wrapping_mul(0x9e37_79b9_7f4a_7c15) | 1;
+            (0..len)
+                .map(|_| {
+                    x ^= x << 13;
+                    x ^= x >> 7;
+                    x ^= x << 17;
+                    (x >> 11) as usize % N_OPS
+                })
+                .collect()
+        })
+        .collect();
+    let mut ref_ops = std::collections::BTreeMap::new();
+    for id in seqs.iter().flatten() {
+        ref_ops.entry(*id).or_insert_with(|| run_op(*id));
+    }
+    let ref_ops = Arc::new(ref_ops);
+
+    let hs: Vec<_> = seqs
+        .into_iter()
+        .enumerate()
+        .map(|(i, seq)| {
             let (yuv, rgb, spec) = (Arc::clone(&yuvs[i % 2]), Arc::clone(&rgb), specs[i % 2]);
-            std::thread::spawn(move || (i % 2, job(&yuv, &rgb, spec)))
+            let ref_ops = Arc::clone(&ref_ops);
+            std::thread::spawn(move || {
+                let mut bad = None;
+                for (step, id) in seq.iter().enumerate() {
+                    let d = run_op(*id);
+                    if d != ref_ops[id] && bad.is_none() {
+                        bad = Some((step, *id));
+                    }
+                }
+                (i % 2, job(&yuv, &rgb, spec), bad)
+            })
         })
         .collect();
     let mut ok = true;
-    for h in hs {
-        let (k, got) = h.join().unwrap();
-        ok &= got == reference[k];
+    for (t, h) in hs.into_iter().enumerate() {
+        let (k, got, bad) = h.join().unwrap();
+        if got != reference[k] {
+            println!("THREADS-DIVERGED thread={t} shared-source conversion differs from sequential reference");
+            ok = false;
+        }
+        if let Some((step, id)) = bad {
+            println!("THREADS-DIVERGED thread={t} step={step} op={id} differs from sequential reference");
+            ok = false;
+        }
     }
-    ok &= planes(&yuvs[0]) == before_yuv[0] && planes(&yuvs[1]) == before_yuv[1];
-    ok &= bits(rgb.data()) == before_rgb;
+    if planes(&yuvs[0]) != before_yuv[0] || planes(&yuvs[1]) != before_yuv[1] || bits(rgb.data()) != before_rgb {
+        println!("THREADS-DIVERGED shared source modified");
+        ok = false;
+    }
     if ok {
-        println!("THREADS-OK n={n}");
+        println!("THREADS-OK n={n} seed={seed} len={len}");
     } else {
-        println!("THREADS-DIVERGED n={n}");
         std::process::exit(4);
     }
+}
+
+// ------------------------------------------------- modes: ops / iso / hist
+// Premise re-checked here (DESIGN.md §4, C07): "every call's result is a
+// function of its arguments alone; call histories collapse to inputs". Each
+// op below is self-contained (builds its input with constructors, performs
+// one conversion, returns a digest of the output bits). `iso k` runs op k as
+// the only library activity of a fresh process; `hist seed len` runs a
+// seeded sequence of ops in one process (on the main thread and, for odd
+// steps, on a long-lived worker thread so thread-local state accumulates
+// there too). The script compares every in-history digest with the isolated
+// one.
+fn fnv(h: &mut u64, bytes: &[u8]) {
+    for b in bytes {
+        *h ^= u64::from(*b);
+        *h = h.wrapping_mul(0x100_0000_01b3);
+    }
+}
+fn dig_f(v: &[[f32; 3]], w: usize, h: usize) -> u64 {
+    let mut d = 0xcbf2_9ce4_8422_2325u64;
+    fnv(&mut d, &(w as u64).to_le_bytes());
+    fnv(&mut d, &(h as u64).to_le_bytes());
+    for p in v {
+        for c in p {
+            fnv(&mut d, &c.to_bits().to_le_bytes());
+        }
+    }
+    d
+}
+fn dig_y<T: yuvxyb::Pixel>(y: &Yuv<T>) -> u64 {
+    let mut d = 0xcbf2_9ce4_8422_2325u64;
+    fnv(&mut d, format!("{:?}", y.config()).as_bytes());
+    for p in y.data() {
+        // logical samples only (row by row), so the digest is layout-free
+        for row in 0..p.cfg.height {
+            for col in 0..p.cfg.width {
+                let v: u32 = yuvxyb::CastFromPrimitive::cast_from(p.p(col, row));
+                fnv(&mut d, &v.to_le_bytes());
+            }
+        }
+    }
+    d
+}
+
+#[derive(Clone, Copy)]
+struct Geo {
+    w: usize,
+    h: usize,
+    ss: (u8, u8),
+    pad: usize,
+}
+const GEOS: [Geo; 6] = [
+    Geo { w: 8, h: 4, ss: (1, 1), pad: 0 },
+    Geo { w: 8, h: 4, ss: (1, 1), pad: 16 }, // same shape, different stride
+    Geo { w: 8, h: 4, ss: (0, 0), pad: 0 },
+    Geo { w: 6, h: 2, ss: (1, 0), pad: 3 },
+    Geo { w: 12, h: 8, ss: (1, 1), pad: 0 },
+    Geo { w: 4, h: 8, ss: (0, 0), pad: 1 }, // same pixel count as 8x4
+];
+use MatrixCoefficients as M;
+use TransferCharacteristic as Tc;
+use ColorPrimaries as Cp;
+// every enum value except Unspecified (unsupported ones yield Err, digested as such)
+const MATS: [M; 14] = [
+    M::BT709, M::ST170M, M::BT2020NonConstantLuminance, M::Identity, M::BT470M, M::BT470BG,
+    M::ST240M, M::YCgCo, M::BT2020ConstantLuminance, M::ST2085,
+    M::ChromaticityDerivedNonConstantLuminance, M::ChromaticityDerivedConstantLuminance,
+    M::ICtCp, M::Reserved,
+];
+const TRCS: [Tc; 18] = [
+    Tc::BT1886, Tc::SRGB, Tc::PerceptualQuantizer, Tc::HybridLogGamma, Tc::BT470M, Tc::BT470BG,
+    Tc::ST170M, Tc::ST240M, Tc::Linear, Tc::Logarithmic100, Tc::Logarithmic316, Tc::XVYCC,
+    Tc::BT2020Ten, Tc::BT2020Twelve, Tc::BT1361E, Tc::ST428, Tc::Reserved0, Tc::Reserved,
+];
+const PRIS: [Cp; 13] = [
+    Cp::BT709, Cp::BT2020, Cp::ST170M, Cp::BT470M, Cp::BT470BG, Cp::ST240M, Cp::Film,
+    Cp::P3DCI, Cp::P3Display, Cp::Tech3213, Cp::ST428, Cp::Reserved0, Cp::Reserved,
+];
+const VARIANTS: usize = 10; // metadata variants per (kind, geometry)
+
+fn mix(k: usize) -> usize {
+    let mut x = (k as u64 + 1).wrapping_mul(0x9e37_79b9_7f4a_7c15);
+    x ^= x >> 29;
+    x = x.wrapping_mul(0xbf58_476d_1ce4_e5b9);
+    x ^= x >> 32;
+    x as usize
+}
+// Two of three variants stay inside the commonly supported sets so that most
+// ops perform a real conversion; the third ranges over every enum value.
+fn pick<Tt: Copy>(all: &[Tt], common: usize, k: usize, salt: usize) -> Tt {
+    let m = mix(k * 7 + salt);
+    if k % 3 == 2 { all[m % all.len()] } else { all[m % common] }
+}
+fn gcfg(g: Geo, bd: u8, k: usize) -> YuvConfig {
+    YuvConfig {
+        bit_depth: bd,
+        subsampling_x: g.ss.0,
+        subsampling_y: g.ss.1,
+        full_range: mix(k) % 2 == 1,
+        matrix_coefficients: pick(&MATS, 13, k, 1),
+        transfer_characteristics: pick(&TRCS, 14, k, 2),
+        color_primaries: pick(&PRIS, 10, k, 3),
+    }
+}
+fn gframe<T: yuvxyb::Pixel>(g: Geo, bd: u8, k: usize) -> Frame<T> {
+    let (cw, ch) = (g.w >> g.ss.0, g.h >> g.ss.1);
+    let mut f = Frame {
+        planes: [
+            Plane::new(g.w, g.h, 0, 0, g.pad, g.pad),
+            Plane::new(cw, ch, g.ss.0 as usize, g.ss.1 as usize, g.pad, g.pad),
+            Plane::new(cw, ch, g.ss.0 as usize, g.ss.1 as usize, g.pad, g.pad),
+        ],
+    };
+    let (lo, span) = (16usize << (bd - 8), 200usize << (bd - 8));
+    for (pi, p) in f.planes.iter_mut().enumerate() {
+        let (stride, xo, yo, w, h) = (p.cfg.stride, p.cfg.xorigin, p.cfg.yorigin, p.cfg.width, p.cfg.height);
+        for y in 0..h {
+            for x in 0..w {
+                let v = lo + ((x * 37 + y * 101 + pi * 59 + k * 13) * 7) % span;
+                p.data[(y + yo) * stride + x + xo] = T::cast_from(v as u16);
+            }
+        }
+    }
+    f
+}
+fn gpixels(g: Geo, k: usize) -> Vec<[f32; 3]> {
+    let n = g.w * g.h;
+    (0..n)
+        .map(|i| {
+            let t = (i * 7 + k) as f32 / (n * 7 + k) as f32;
+            [t, 1.0 - t * 0.9, (t * 3.3) % 1.0]
+        })
+        .collect()
+}
+
+const KINDS: usize = 12;
+const N_OPS: usize = KINDS * GEOS.len() * VARIANTS;
+
+fn dig_err<E: std::fmt::Debug>(e: &E) -> u64 {
+    let mut d = 0x1234_5678_9abc_def0u64;
+    fnv(&mut d, format!("{e:?}").as_bytes());
+    d
+}
+fn df<I>(r: Result<I, yuvxyb::ConversionError>, f: impl FnOnce(&I) -> (&[[f32; 3]], usize, usize)) -> u64 {
+    match r {
+        Ok(i) => {
+            let (d, w, h) = f(&i);
+            dig_f(d, w, h)
+        }
+        Err(e) => dig_err(&e),
+    }
+}
+fn dy<T: yuvxyb::Pixel>(r: Result<Yuv<T>, yuvxyb::ConversionError>) -> u64 {
+    match r {
+        Ok(y) => dig_y(&y),
+        Err(e) => dig_err(&e),
+    }
+}
+
+fn run_op(id: usize) -> u64 {
+    let g = GEOS[id % GEOS.len()];
+    let kind = (id / GEOS.len()) % KINDS;
+    let k = id; // varies the metadata with the op id
+    let (t, p) = (pick(&TRCS, 14, k, 4), pick(&PRIS, 10, k, 5));
+    match kind {
+        0 => df(Rgb::try_from(&Yuv::<u8>::new(gframe(g, 8, k), gcfg(g, 8, k)).unwrap()), |r| (r.data(), r.width(), r.height())),
+        1 => df(Rgb::try_from(&Yuv::<u16>::new(gframe(g, 10, k), gcfg(g, 10, k)).unwrap()), |r| (r.data(), r.width(), r.height())),
+        2 => df(LinearRgb::try_from(&Yuv::<u16>::new(gframe(g, 8, k), gcfg(g, 8, k)).unwrap()), |r| (r.data(), r.width(), r.height())),
+        3 => df(Xyb::try_from(Yuv::<u8>::new(gframe(g, 8, k), gcfg(g, 8, k)).unwrap()), |r| (r.data(), r.width(), r.height())),
+        4 => {
+            let rgb = Rgb::new(gpixels(g, k), g.w, g.h, t, p).unwrap();
+            dy(Yuv::<u8>::try_from((&rgb, gcfg(g, 8, k))))
+        }
+        5 => {
+            let rgb = Rgb::new(gpixels(g, k), g.w, g.h, t, p).unwrap();
+            dy(Yuv::<u16>::try_from((rgb, gcfg(g, 12, k))))
+        }
+        6 => {
+            let xyb = Xyb::from(LinearRgb::new(gpixels(g, k), g.w, g.h).unwrap());
+            dy(Yuv::<u16>::try_from((xyb, gcfg(g, 10, k))))
+        }
+        7 => df(LinearRgb::try_from(Rgb::new(gpixels(g, k), g.w, g.h, t, p).unwrap()), |r| (r.data(), r.width(), r.height())),
+        8 => df(Rgb::try_from((LinearRgb::new(gpixels(g, k), g.w, g.h).unwrap(), t, p)), |r| (r.data(), r.width(), r.height())),
+        9 => {
+            let x = Xyb::from(LinearRgb::new(gpixels(g, k), g.w, g.h).unwrap());
+            let a = dig_f(x.data(), x.width(), x.height());
+            let l = LinearRgb::from(x);
+            a ^ dig_f(l.data(), l.width(), l.height()).rotate_left(17)
+        }
+        10 => {
+            let x = Hsl::from(LinearRgb::new(gpixels(g, k), g.w, g.h).unwrap());
+            let a = dig_f(x.data(), x.width(), x.height());
+            let l = LinearRgb::from(x);
+            a ^ dig_f(l.data(), l.width(), l.height()).rotate_left(17)
+        }
+        _ => {
+            // Unspecified metadata: the resolved config must not depend on history either
+            let mut c = gcfg(g, 8, k);
+            if mix(k) & 2 != 0 { c.matrix_coefficients = M::Unspecified; }
+            if mix(k) & 4 != 0 { c.color_primaries = Cp::Unspecified; }
+            if mix(k) & 24 != 8 { c.transfer_characteristics = Tc::Unspecified; }
+            let y = Yuv::<u8>::new(gframe(g, 8, k), c).unwrap();
+            dig_y(&y) ^ df(Rgb::try_from(&y), |r| (r.data(), r.width(), r.height())).rotate_left(9)
+        }
+    }
+}
+
+fn hist(seed: u64, len: usize) {
+    use std::sync::mpsc;
+    // long-lived worker: receives op ids, returns digests (a fixed hand-off,
+    // one request in flight at a time, so the history is a total order)
+    let (tx, rx) = mpsc::channel::<usize>();
+    let (rtx, rrx) = mpsc::channel::<u64>();
+    let worker = std::thread::spawn(move || {
+        for id in rx {
+            rtx.send(run_op(id)).unwrap();
+        }
+    });
+    let mut x = seed.wrapping_mul(0x9e37_79b9_7f4a_7c15) | 1;
+    for step in 0..len {
+        x ^= x << 13;
+        x ^= x >> 7;
+        x ^= x << 17;
+        let id = (x >> 11) as usize % N_OPS;
+        let d = if (x >> 5) & 1 == 1 {
+            tx.send(id).unwrap();
+            rrx.recv().unwrap()
+        } else {
+            run_op(id)
+        };
+        println!("OP {id} {d:016x} step={step}");
+    }
+    drop(tx);
+    worker.join().unwrap();
 }
 
 fn main() {
     let mode = std::env::args().nth(1).unwrap_or_else(|| "seams".into());
     match mode.as_str() {
         "seams" => seams(),
-        "threads" => threads(
-            std::env::args().nth(2).and_then(|s| s.parse().ok()).unwrap_or(3),
-        ),
+        "threads" => {
+            let arg = |i: usize, d: u64| std::env::args().nth(i).and_then(|s| s.parse().ok()).unwrap_or(d);
+            threads(arg(2, 3) as usize, arg(3, 0), arg(4, 50) as usize)
+        }
+        "nops" => println!("{N_OPS}"),
+        "iso" => {
+            let id: usize = std::env::args().nth(2).and_then(|s| s.parse().ok()).expect("iso <id>");
+            println!("OP {id} {:016x}", run_op(id));
+        }
+        "hist" => {
+            let seed = std::env::args().nth(2).and_then(|s| s.parse().ok()).unwrap_or(0);
+            let len = std::env::args().nth(3).and_then(|s| s.parse().ok()).unwrap_or(200);
+            hist(seed, len);
+        }
         _ => {
-            eprintln!("usage: probe seams|threads [n]");
+            eprintln!("usage: probe seams|threads [n seed len]|nops|iso <id>|hist <seed> <len>");
             std::process::exit(2);
         }
     }
